@@ -116,6 +116,13 @@ func TestC08(t *testing.T) {
 			if rapid.IntRange(0, 5).Draw(rt, "foreach") == 0 {
 				op.Kind = "foreach"
 			}
+			if rapid.IntRange(0, 9).Draw(rt, "with-fault") == 0 {
+				// a failing store call in the middle of the scan must surface as an error, not as a
+				// shifted window
+				fo := op
+				fo.FaultAt = int64(rapid.IntRange(1, 30).Draw(rt, "fault-at"))
+				do(fo)
+			}
 			do(op)
 
 			// classification
